@@ -10,7 +10,7 @@ from . import cards
 
 KINDS = ["F2", "FL", "F3", "g1", "gL", "g4"]
 FLAVORS = ["total", "light", "charm", "bottom", "top"]
-SCHEMES = [("ZM-VFNS", 4), ("ZM-VFNS@1e5", 4), ("FFNS", 6), ("FFNS", 3), ("FFNS", 4), ("FFNS", 5), ("FFN0", 3), ("FFN0", 4), ("FFN0", 5), ("FONLL-FFNS", 3), ("FONLL-FFNS", 4), ("FONLL-FFN0", 3), ("FONLL-FFN0", 4)]
+SCHEMES = [("ZM-VFNS", 4), ("ZM-VFNS@1e5", 4), ("FFN0%3", 3), ("FFN0%3", 4), ("FONLL-FFN0%3", 3), ("FFNS", 6), ("FFNS", 3), ("FFNS", 4), ("FFNS", 5), ("FFN0", 3), ("FFN0", 4), ("FFN0", 5), ("FONLL-FFNS", 3), ("FONLL-FFNS", 4), ("FONLL-FFN0", 3), ("FONLL-FFN0", 4)]
 PROCS = [("EM", "electron"), ("EM", "positron"), ("NC", "electron"), ("NC", "positron"), ("CC", "electron"), ("CC", "positron"), ("CC", "neutrino"), ("CC", "antineutrino")]
 XSKINDS = cards.XS
 
@@ -19,6 +19,12 @@ def all_cells():
     """(name-kind, flavor, process, projectile, FNS, NfFF, PTO, TMC)"""
     for kind, fl, (pr, proj), (fns, nfff), pto, tmc in itertools.product(KINDS + XSKINDS, FLAVORS, PROCS, SCHEMES, (0, 1, 2, 3), (0, 1, 2, 3)):
         yield (kind, fl, pr, proj, fns, nfff, pto, tmc)
+
+
+def evol_order(cell):
+    """order of the evolution (theory card `PTO`): the DIS order capped at 2, or equal to it for the
+    `%3` variants (N3LL asymptotic logarithms)"""
+    return cell[6] if "%3" in cell[4] else min(cell[6], 2)
 
 
 EXPLICIT = (ValueError, NotImplementedError)
@@ -39,8 +45,10 @@ def make_cards(cell, x=0.15, Q2=30.0, y=0.5, grid=None):
     if "@" in fns:  # same scheme at a virtuality above the top threshold (six active flavours)
         fns, q2s = fns.split("@")
         Q2 = float(q2s)
+    evol = evol_order(cell)
+    fns = fns.split("%")[0]
     grid = grid or [float(v) for v in np.geomspace(1e-2, 1.0, 6)]
-    t = cards.theory(PTO=min(pto, 2), PTODIS=pto, FNS=fns, NfFF=nfff, TMC=tmc)
+    t = cards.theory(PTO=evol, PTODIS=pto, FNS=fns, NfFF=nfff, TMC=tmc)
     kin = dict(x=x, Q2=Q2)
     if kind in XSKINDS:
         kin["y"] = y
@@ -93,6 +101,40 @@ def structural(cell):
         return "ok"
     except Exception as e:  # noqa
         return classify_exception(e)
+
+
+def structural_values(cell, zs=(0.5, 0.25, 0.8)):
+    """like `structural`, but returns the values of every part of every kernel at a few z
+    (used to compare compiled and interpreted execution cell by cell): (outcome, [values])"""
+    import yadism
+    from yadism import observable_name as on
+    from yadism.coefficient_functions import Combiner
+
+    kind, fl, pr, proj, fns, nfff, pto, tmc = cell
+    t, o = make_cards(cell)
+    vals = []
+    try:
+        runner = yadism.Runner(t, o)
+        name = f"{kind}_{fl}"
+        oname = on.ObservableName(name)
+        sf = runner.get_sf(oname)
+        Q2 = o["observables"][name][0]["Q2"]
+        esf = sf.get_esf(oname, dict(x=0.15, Q2=Q2), use_raw=True)
+        for k in Combiner(esf).collect_elems():
+            for od in esf.orders:
+                if not k.has_order(od):
+                    continue
+                rsl = k.coeff[od]()
+                if rsl is None:
+                    continue
+                for part in ("reg", "sing", "loc"):
+                    f = getattr(rsl, part)
+                    if f is not None:
+                        for z in zs:
+                            vals.append(float(f(z, rsl.args[part])))
+        return "ok", vals
+    except Exception as e:  # noqa
+        return classify_exception(e), vals
 
 
 def full(cell):
